@@ -10,11 +10,15 @@ Pens are opaque: the SGR escape string itself, numbered by `pen_id`.
 import re
 
 RAW_IDS = {"\x1b[?2004h": 1, "\x1b[?2004l": 2, "\x1b[?1l": 3, "\x1b[?1049h": 4,
-           "\x1b[?1049l": 5, "\x1b[?12l": 6}
+           "\x1b[?1049l": 5, "\x1b[?12l": 6,
+           # enable_mouse_support / disable_mouse_support (Model/C06_Modes.v mouse_on / mouse_off)
+           "\x1b[?1000h": 7, "\x1b[?1003h": 8, "\x1b[?1015h": 9, "\x1b[?1006h": 10,
+           "\x1b[?1000l": 11, "\x1b[?1015l": 12, "\x1b[?1006l": 13, "\x1b[?1003l": 14}
+# cursor shapes: ESC[n q -> raw id 20+n (n = 0: reset_cursor_shape)
 ZWE = "\x1b]1337;z%d\x07"          # zero-width escape payloads used by the generator
 _TOK = re.compile(
     r"\x1b\[(\d*)([ABCD])|\x1b\[(K)|\x1b\[(J)|(\x1b\[0(?:;\d+)*m)|\x1b\[\?7([hl])|\x1b\[\?25([hl])"
-    r"|(\x1b\[H)|(\x1b\[\?2004[hl]|\x1b\[\?1l|\x1b\[\?1049[hl]|\x1b\[\?12l)|\x1b\]1337;z(\d+)\x07"
+    r"|(\x1b\[H)|(\x1b\[\?2004[hl]|\x1b\[\?1l|\x1b\[\?1049[hl]|\x1b\[\?12l|\x1b\[\?10(?:00|03|15|06)[hl])|\x1b\]1337;z(\d+)\x07|\x1b\[([0-6]) q"
     r"|(\r)|(\n)|(\x08)|([^\x00-\x1f\x7f\x1b]+)|([\x00-\x1f\x7f\x1b])", re.S)
 
 
@@ -61,20 +65,22 @@ def tokenize(data, pens):
             out.append([15, RAW_IDS[g[8]]])
         elif g[9] is not None:
             out.append([15, 100 + int(g[9])])
-        elif g[10]:
-            out.append([2])
+        elif g[10] is not None:
+            out.append([15, 20 + int(g[10])])
         elif g[11]:
-            out.append([3])
+            out.append([2])
         elif g[12]:
-            out.append([8])
+            out.append([3])
         elif g[13]:
-            t = [ord(c) for c in g[13]]
+            out.append([8])
+        elif g[14]:
+            t = [ord(c) for c in g[14]]
             if out and out[-1][0] == 1:
                 out[-1].extend(t)
             else:
                 out.append([1] + t)
         else:
-            out.append([99, ord(g[14])])
+            out.append([99, ord(g[15])])
     if pos != len(data):
         out.append([99] + [ord(c) for c in data[pos:]])
     return out
@@ -103,6 +109,8 @@ class Term:
         self.maxrow = 0          # largest row the cursor visited / wrote (oracle only)
         self.written = set()     # rows in which a cell was written (oracle only)
         self.layers = []
+        # terminal modes as far as the renderer's raw sequences define them (oracle only; Model/C06_Modes.v mode_tok)
+        self.modes = {"alt": 0, "bp": 0, "mouse": 0, "shape": 0}
         # events on which the model's two debatable choices would be observable (statistics only):
         self.nz_erase = 0        # EL / ED / scroll-fill executed with a pen other than ESC[0m (background-colour-erase matters)
         self.aw_text = 0         # text written while autowrap is on (deferred vs immediate wrap could matter)
@@ -205,7 +213,15 @@ class Term:
             self.cy = 0
             self.pending = 0
         elif k == 15:
-            pass
+            i = tok[1]
+            if i in (4, 5):
+                self.modes["alt"] = 1 if i == 4 else 0
+            elif i in (1, 2):
+                self.modes["bp"] = 1 if i == 1 else 0
+            elif i in (7, 11):
+                self.modes["mouse"] = 1 if i == 7 else 0
+            elif 20 <= i <= 26:
+                self.modes["shape"] = i - 20
         else:
             self.undef = 1
         self.maxrow = max(self.maxrow, self.cy)
